@@ -9,7 +9,8 @@ Record peer := {
   pr_k : kexlists;
   pr_hostkeys : list (string * hostkey_info);
   pr_dh : list (string * Z);
-  pr_rate_notes : string }.
+  pr_rate_notes : string;
+  pr_general : list level }.               (* findings of the general section that carry a level: SSH-1 protocol banner (fail), non-printable banner (warn) *)
 
 Definition item := (string * string * string * list (level * string))%type.   (* category, advertised name, shown name, notes *)
 
@@ -33,6 +34,8 @@ Definition items_of (d : db) (p : peer) : list item :=
       end) (snd cl)) (cat_lists (pr_k p)).
 
 Definition levels_of (its : list item) : list level := flat_map (fun it => map fst (snd it)) its.
+(* output(): the banner line of a protocol-1.x peer and 'protocol SSH1 enabled' are failures, a banner with non-printable characters a warning *)
+Definition general_levels (ssh1_banner nonprintable : bool) : list level := (if ssh1_banner then [LFail] else []) ++ (if nonprintable then [LWarn] else []).
 
 Definition unknown_of (d : db) (p : peer) : list string :=
   flat_map (fun cl => flat_map (fun n =>
@@ -44,7 +47,7 @@ Definition report_of (p : peer) (d0 : db) : report :=
   let pp := post_process (pr_client_audit p) (pr_banner_software p) (pr_k p) (pr_dh p) (pr_rate_notes p) d0 in
   let d := p_db pp in
   let its := items_of d p in
-  {| rp_status := status_fold exit_GOOD (levels_of its);
+  {| rp_status := status_fold exit_GOOD (pr_general p ++ levels_of its);
      rp_items := its;
      rp_unknown := unknown_of d p;
      rp_recs := recommendations (pr_software p) d (pr_k p) (p_suppress pp);
